@@ -42,6 +42,7 @@ const (
 	errOnQuery            // next query: read error instead of a reply
 	hold                  // keep queries unanswered until released
 	replyThenClose        // answer the next query, then EOF right after the reply
+	silent                // swallow queries, never answer, never close (dead peer without FIN)
 )
 
 type cstate struct {
@@ -62,6 +63,7 @@ type world struct {
 	net        *fakenet.Net
 	stream     bool
 	freshBad   atomic.Bool // new connections are born dying (EOF on first query)
+	freshHold  atomic.Bool // connections created while set start in hold mode (warm-up)
 	mu         sync.Mutex
 	attempts   map[int][]*fakenet.Conn // seq -> conns that carried it (distinct, in order)
 	starts     map[int]int64           // seq -> event counter at call start
@@ -86,7 +88,7 @@ func (w *world) newConn() *fakenet.Conn {
 	if w.freshBad.Load() {
 		cs.mode = eofOnQuery
 	}
-	if freshHold.Load() {
+	if w.freshHold.Load() {
 		cs.mode = hold
 	}
 	c := w.net.NewConnUser(w.stream, cs)
@@ -395,6 +397,12 @@ func doCall(w *world, t exch, timeout time.Duration, trClosed *atomic.Bool) call
 // this scenario, or -1 if unknown. A call may only exhaust its attempt bound if
 // at least that many distinct dead connections exist.
 func judge(w *world, s scen, cr callRes, serverWorksFresh bool, deadAvail int) {
+	judgeX(w, s, cr, serverWorksFresh, deadAvail, s.Script != "stream")
+}
+
+// strictFresh: the script never damages a connection that was opened during a
+// probe call, so a failure on such a connection is self-inflicted.
+func judgeX(w *world, s scen, cr callRes, serverWorksFresh bool, deadAvail int, strictFresh bool) {
 	rep.Eval(1)
 	w.mu.Lock()
 	att := append([]*fakenet.Conn(nil), w.attempts[cr.seq]...)
@@ -440,6 +448,8 @@ func judge(w *world, s scen, cr callRes, serverWorksFresh bool, deadAvail int) {
 		rep.Count("fail_legit:context_ended", 1)
 	case cr.closedTr:
 		rep.Count("fail_legit:transport_closed", 1)
+	case fresh && serverWorksFresh && strictFresh:
+		rep.Violation("fresh-connection-works-but-call-failed-"+s.Transport, fmt.Sprintf("the call opened a fresh connection to a server that answers every query on fresh connections, and still reported failure (%v)", cr.err), wit)
 	case fresh:
 		rep.Count("fail_legit:fresh_connection_failed", 1)
 		rep.Nontrivial(fmt.Sprintf("%s|%s|fresh-fail|att%d|seed%d|q%d", s.Transport, s.Script, len(att), s.Seed, cr.seq))
@@ -509,7 +519,7 @@ func warm(w *world, t exch, s scen, n int) bool {
 		return true
 	}
 	w.freshBad.Store(false)
-	freshHold.Store(true) // connections created from now on start in hold mode
+	w.freshHold.Store(true) // connections created from now on start in hold mode
 	var wg sync.WaitGroup
 	res := make([]callRes, n)
 	for i := 0; i < n; i++ {
@@ -532,7 +542,7 @@ func warm(w *world, t exch, s scen, n int) bool {
 		}
 		time.Sleep(100 * time.Microsecond)
 	}
-	freshHold.Store(false)
+	w.freshHold.Store(false)
 	for _, c := range w.net.Conns() {
 		w.releaseHeld(c)
 	}
@@ -544,8 +554,6 @@ func warm(w *world, t exch, s scen, n int) bool {
 	}
 	return true
 }
-
-var freshHold atomic.Bool
 
 // scriptPool: warm a pool, poison k live connections, then probe.
 func scriptPool(s scen) {
@@ -571,7 +579,11 @@ func scriptPool(s scen) {
 	for _, c := range live[:k] {
 		switch s.How {
 		case "failwrite":
-			c.FailNextWrite(fakenet.ErrInjected)
+			if s.Seed%2 == 0 {
+				c.FailNextWrite(fakenet.ErrInjected)
+			} else {
+				c.FailWritesFromNow(fakenet.ErrInjected) // sends fail persistently
+			}
 			st(c).mu.Lock()
 			st(c).dead = true // nothing will be answered on it any more
 			st(c).mu.Unlock()
@@ -830,6 +842,35 @@ func scriptDialFail(s scen) {
 	}
 }
 
+// scriptSilentReused: a reused connection whose peer has gone silent (no FIN, no
+// RST: queries are swallowed). The attempt on it ends by the transport's own
+// reply timeout; the query must then be retried on a fresh connection, which
+// works. Costs the reply timeout in wall time, so these run concurrently with
+// everything else.
+func scriptSilentReused(s scen) {
+	caselog.Log(s)
+	w := newWorld(s.Stream)
+	w.kind = s.Transport
+	t := makeTransport(w, s)
+	defer t.Close()
+	if !warm(w, t, s, 1) {
+		rep.Inconclusive("silent-reused %+v: warm-up failed", s)
+		return
+	}
+	live := w.liveConns()
+	if len(live) != 1 {
+		rep.Inconclusive("silent-reused %+v: expected one warm connection, have %d", s, len(live))
+		return
+	}
+	w.setMode(live[0], silent)
+	r := doCall(w, t, 40*time.Second, nil)
+	rep.Count("silent_reused_scenarios", 1)
+	judgeX(w, s, r, true, 1, true)
+	if r.err != nil && r.ctxErr == nil {
+		rep.Violation("silent-reused-conn-not-retried-"+s.Transport, fmt.Sprintf("a query sent on a reused connection whose peer went silent failed (%v) instead of being retried on a fresh connection after the reply timeout", r.err), map[string]any{"scenario": s})
+	}
+}
+
 func main() {
 	rep = evid.New("C08", "fault_enumeration")
 	caselog = evid.OpenCaseLog()
@@ -873,6 +914,14 @@ func main() {
 		L      int
 	}
 	tls := []tl{{"reuse", true, 1}, {"pipeline", true, 1}, {"pipeline", true, 2}, {"pipeline", false, 2}, {"pipeline", true, 8}}
+	var silentWg sync.WaitGroup
+	for _, x := range tls {
+		for r := 0; r < rep.Pick(1, 3); r++ {
+			silentWg.Add(1)
+			sc := scen{Transport: x.t, Stream: x.stream, L: x.L, Script: "silent-reused", Seed: rng.Int63n(1 << 40)}
+			go func() { defer silentWg.Done(); scriptSilentReused(sc) }()
+		}
+	}
 	maxWarm := rep.Pick(5, 6)
 	// pool scripts: enumerated completely over the listed dimensions
 	n := 0
@@ -921,6 +970,7 @@ func main() {
 			}
 		}
 	}
+	silentWg.Wait()
 	rep.Exhaustive(true)
 	rep.Extra("enumerated_space", "pool scripts: 5 transport shapes x warm 1..N conns x poison 0..warm x 4 kill kinds x probe counts {1,2,4} (+ dying fresh connections); in-flight: k=1..L+2; streams sampled")
 	rep.Count("pool_scripts_enumerated", int64(n))
